@@ -53,6 +53,24 @@ Theorem C18_accepted_again_clean_after_expiry_sweep : forall g ip now, banned g 
   (forall amt t, snd (add_penalty g' ip amt t) = amt).
 Proof. exact accepted_again_clean. Qed.
 
+(* the whole life of a ban over time, composed: reaching the threshold at time t bans; refused on both paths while the sweeps come
+   no later than t + exp, whatever else happens; not penalised again and a sweep after t + exp => entry gone, clean score *)
+Theorem C18_ban_lifecycle : forall g ip amt t es1 es2,
+  0 <= t -> 0 <= exp_secs g -> max_penalty <= score_of g ip + amt ->
+  let g1 := fst (add_penalty g ip amt t) in
+  let T := t + exp_secs g in
+  (Forall (respects ip T g1) es1 ->
+     banned (grun g1 es1) ip = true /\ inbound_ok (grun g1 es1) (Some ip) = false /\ outbound_ok (grun g1 es1) (Some ip) = false) /\
+  (no_pen ip es2 -> (exists now, In (ESweep now) es2 /\ T < now) ->
+     sc (grun g1 es2) ip = None /\ score_of (grun g1 es2) ip = 0 /\ banned (grun g1 es2) ip = false).
+Proof. exact ban_lifecycle. Qed.
+
+Example C18_timed_schedule_runs :
+  let g n := grun (empty_gater 5) (firstn n timed_schedule) in
+  (banned (g 2%nat) 9%N, banned (g 7%nat) 9%N, inbound_ok (g 7%nat) (Some 9%N), sc (g 8%nat) 9%N, inbound_ok (g 8%nat) (Some 9%N),
+   score_of (g 8%nat) 8%N, inbound_ok (g 8%nat) (Some 7%N)) = (true, true, false, None, true, 30, false).
+Proof. exact timed_schedule_runs. Qed.
+
 Theorem C18_sweep_keeps_unexpired : forall g ip now,
   (banned g ip = false \/ now <= expiry_of g ip) -> sc (sweep g now) ip = sc g ip.
 Proof. exact sweep_keeps. Qed.
@@ -119,6 +137,17 @@ Proof. exact rate_excess_leads_to_penalty. Qed.
 Theorem C18_legal_traffic_never_penalised : forall lim pen es, legal lim es -> snd (rrun (new_limiter lim pen) es) = [].
 Proof. exact legal_traffic_never_penalised. Qed.
 
+(* ... also at the granularity of the code: increaseCounter and checkLimit are two critical sections; for EVERY interleaving of
+   the increments and checks of concurrent messages (checks late, reordered, doubled or missing) legal traffic is never penalised *)
+Theorem C18_legal_traffic_never_penalised_interleaved : forall lim pen es,
+  ilegal lim es -> snd (irun (new_limiter lim pen) es) = [].
+Proof. exact legal_traffic_never_penalised_interleaved. Qed.
+
+Theorem C18_on_msg_is_inc_then_check : forall r proc peer,
+  snd (on_msg r proc peer) = snd (check (inc r proc peer) proc peer) /\
+  forall p q, cnt (fst (on_msg r proc peer)) p q = cnt (fst (check (inc r proc peer) proc peer)) p q.
+Proof. intros. split. apply on_msg_penalty_split. intros. apply on_msg_cnt_split. Qed.
+
 Theorem C18_legal_message_changes_nothing : forall ahp known m pid ip proc now, known proc = true ->
   cnt (rl m) proc pid + 1 <= limit (rl m) proc -> nd (on_message ahp known m pid ip (WellFormed proc) now) = nd m.
 Proof. exact legal_message_no_penalty. Qed.
@@ -130,7 +159,7 @@ Proof. exact legal_message_no_penalty. Qed.
 Theorem C18_penalty_sites_catalogue :
   gen_penalty_sites = map fst expected_sites /\ gen_penalty_decls = expected_decls /\ sites_well_guarded = true /\
   (count_class MalformedEnvelope, count_class UnknownProc, count_class InvalidSyncRequest, count_class InvalidSyncResponse,
-   count_class RateAboveLimit, count_class Plumbing) = (2, 2, 7, 7, 2, 4)%nat.
+   count_class RateAboveLimit, count_class Plumbing, count_class SyncPeerNotAhead) = (2, 2, 7, 6, 2, 4, 1)%nat.
 Proof. vm_compute. repeat split; reflexivity. Qed.
 
 (* ---- the code before the fix commit: banPeer got an address without /p2p/<peerID>; the ban was recorded, the Disconnect skipped *)
